@@ -834,3 +834,450 @@ Proof.
   rewrite Forall_forall in W. destruct (W w Hw) as [C [S O]]. rewrite Forall_forall in C, S.
   eapply covered_record_resolves; eauto.
 Qed.
+
+(** ================= shutdown ================= *)
+(** refused, not lost: once the list is closed for writing no finalizer
+    returns FinOk, nothing changes, no ack is created *)
+Theorem refused_not_lost_pbl tok blk size seed p p' fr :
+  closedForWriting p = true -> put_finalize tok blk size seed p = Ok (p', fr) ->
+  p' = p /\ (fr = FinClosed \/ (fr = FinBlockError /\ blk = None)).
+Proof.
+  intros Hc. unfold put_finalize. destruct tok as [|abs]; [intros H; inversion H; auto|].
+  destruct blk as [off|]; [|intros H; inversion H; auto].
+  rewrite Hc. intros H; inversion H; auto.
+Qed.
+
+Lemma push_back_closed alloc p : closedForWriting p = true -> push_back alloc p = (p, PushClosed).
+Proof. intros Hc. unfold push_back. rewrite Hc. reflexivity. Qed.
+
+(** how closedForWriting evolves *)
+Lemma gps_closed p p' st : get_persistent_state p = Ok (p', st) -> closedForWriting p' = closedForWriting p.
+Proof.
+  unfold get_persistent_state. destruct (gps_loop _ _ _ _); [|discriminate]. cbn. intros H; inversion H; reflexivity.
+Qed.
+Lemma nsw_closed p p' : notify_state_written p = Ok p' -> closedForWriting p' = closedForWriting p.
+Proof.
+  unfold notify_state_written. destruct (_ <? _); [discriminate|].
+  destruct (skipn _ _); [destruct (nc_block _ _)|]; intros H; inversion H; reflexivity.
+Qed.
+Lemma put_finalize_closed_flag tok blk size seed p p' fr :
+  put_finalize tok blk size seed p = Ok (p', fr) -> closedForWriting p' = closedForWriting p.
+Proof.
+  intros H. destruct fr as [off| | |].
+  - destruct (put_finalize_ok_shape _ _ _ _ _ _ _ H) as [abs [_ [_ [Hc [_ [_ [_ [_ [_ [_ [Hc' _]]]]]]]]]]]. congruence.
+  - rewrite (put_finalize_not_ok _ _ _ _ _ _ _ H) by discriminate. reflexivity.
+  - rewrite (put_finalize_not_ok _ _ _ _ _ _ _ H) by discriminate. reflexivity.
+  - rewrite (put_finalize_not_ok _ _ _ _ _ _ _ H) by discriminate. reflexivity.
+Qed.
+Lemma wstep_closed cfg me w a s s1 w' : wstep cfg me w a s = Some (Ok (s1, w')) ->
+  closedForWriting (s_pbl s1) = closedForWriting (s_pbl s).
+Proof.
+  unfold wstep. destruct w.
+  - destruct (s_store s); [discriminate|]. intros H; inversion H; reflexivity.
+  - destruct (get_persistent_state (s_pbl s)) as [[p' st]|] eqn:E; [|discriminate].
+    intros H; inversion H; subst. cbn. eapply gps_closed; eauto.
+  - destruct (a_ok a); intros H; inversion H; reflexivity.
+  - destruct (notify_state_written (s_pbl s)) as [p'|] eqn:E; [|discriminate].
+    intros H; inversion H; subst. cbn. eapply nsw_closed; eauto.
+  - destruct (_ <=? _)%N; [|discriminate]. intros H; inversion H; reflexivity.
+Qed.
+
+(** closedForWriting is set by exactly one step: the put loop's
+    NotifySyncStarting(true) after the first shutdown sync; it is never reset *)
+Lemma step_closed cfg s e s' : step cfg s e = Some (Ok s') ->
+  closedForWriting (s_pbl s') = closedForWriting (s_pbl s)
+  \/ (closedForWriting (s_pbl s) = false /\ closedForWriting (s_pbl s') = true /\
+      exists a, e = EStep TP a /\ s_p s = PSyncRet false false /\ s_p s' = PSyncing false true).
+Proof.
+  destruct e as [alloc| |index size|k blk seed|d| |t a]; cbn [step].
+  - intros H; inversion H; subst. left. cbn. unfold push_back.
+    destruct (closedForWriting (s_pbl s)) eqn:E; [exact E|]. destruct alloc; cbn; auto.
+  - destruct (blocks (s_pbl s)) as [|b rest] eqn:Eb; [discriminate|].
+    destruct (pop_front (s_pbl s)) as [p'|] eqn:Ep; [|discriminate]. intros H; inversion H; subst. left. cbn.
+    destruct (pop_front_shape _ _ _ _ Eb Ep) as [_ [_ [_ [_ [_ [_ [_ Hc]]]]]]]. exact Hc.
+  - destruct (_ || _); [|discriminate]. destruct (put_start _ _); [|discriminate]. intros H; inversion H; auto.
+  - destruct (nth_error (s_uploads s) k) as [[[tok sz]|]|]; try discriminate.
+    destruct (put_finalize tok blk sz seed (s_pbl s)) as [[p' fr]|] eqn:Ef; [|discriminate].
+    intros H; inversion H; subst. left. cbn. eapply put_finalize_closed_flag; eauto.
+  - intros H; inversion H; auto.
+  - intros H; inversion H; auto.
+  - destruct t.
+    + unfold rstep. destruct (s_r s) as [|ch|w].
+      * intros H; inversion H; auto.
+      * destruct (is_closed _ _); [|discriminate]. intros H; inversion H; auto.
+      * destruct (wstep cfg TR w a s) as [[[s1 w']|]|] eqn:Ew; try discriminate.
+        pose proof (wstep_closed _ _ _ _ _ _ _ Ew) as Hc. destruct w'; intros H; inversion H; subst; left; exact Hc.
+    + unfold pstep. destruct (s_p s) as [|ch|ch|dl|keep|keep final|keep final|keep final dl|keep w|] eqn:Ep.
+      * intros H; inversion H; auto.
+      * destruct (is_closed _ _); intros H; inversion H; auto.
+      * destruct (s_cancel s && _); [|destruct (is_closed _ _); [|discriminate]]; intros H; inversion H; auto.
+      * destruct (s_cancel s && _); [|destruct (_ && _)%bool; [|discriminate]]; intros H; inversion H; auto.
+      * intros H; inversion H; auto.
+      * destruct (a_ok a); intros H; inversion H; auto.
+      * destruct (nsc_shape (s_pbl s)) as [_ [_ [_ [_ [_ [_ [_ Hc]]]]]]].
+        destruct keep, final; cbn [negb andb]; intros H; inversion H; subst; cbn; auto.
+        destruct (closedForWriting (s_pbl s)) eqn:E; [left; reflexivity|right].
+        splits; auto. exists a. auto.
+      * destruct (_ <=? _)%N; [|discriminate]. intros H; inversion H; auto.
+      * destruct (wstep cfg TP w a s) as [[[s1 w']|]|] eqn:Ew; try discriminate.
+        pose proof (wstep_closed _ _ _ _ _ _ _ Ew) as Hc. destruct w'; intros H; inversion H; subst; left; exact Hc.
+      * discriminate.
+Qed.
+
+(** ---- the final commit covers every ack ---- *)
+Definition all_acked (x : gsys) (w : gwrite) : Prop := gw_cohort w = g_acks (gs_g x).
+Definition head_all_acked (x : gsys) : Prop := exists w0 rest, gs_writes x = w0 :: rest /\ all_acked x w0.
+
+Definition fi (s : sys) (x : gsys) : Prop :=
+  closedForWriting (s_pbl s) = true ->
+  g_syncing (gs_g x) = g_acks (gs_g x) /\
+  match s_p s with
+  | PSyncing false true | PSyncSleep false true _ | PSyncRet false true => True
+  | PW false w =>
+      g_synced (gs_g x) = g_acks (gs_g x) /\
+      match w with
+      | WWriting _ => exists w0, gs_pend_p x = Some w0 /\ all_acked x w0
+      | WWritten => head_all_acked x
+      | _ => True
+      end
+  | PExit =>
+      g_synced (gs_g x) = g_acks (gs_g x) /\ head_all_acked x /\
+      match s_r s with
+      | RW (WWriting _) => exists w0, gs_pend_r x = Some w0 /\ all_acked x w0
+      | _ => True
+      end
+  | _ => False
+  end.
+
+(** environment events and thread steps that change neither the ghost lists nor the program counters *)
+Lemma fi_frame s x s' x' :
+  s_p s' = s_p s -> s_r s' = s_r s ->
+  g_acks (gs_g x') = g_acks (gs_g x) -> g_syncing (gs_g x') = g_syncing (gs_g x) ->
+  g_synced (gs_g x') = g_synced (gs_g x) -> same_writes x x' ->
+  (closedForWriting (s_pbl s') = true -> closedForWriting (s_pbl s) = true) ->
+  fi s x -> fi s' x'.
+Proof.
+  intros Hp Hr Ha Hy Hd [W1 [W2 W3]] Hc F C. specialize (F (Hc C)).
+  unfold fi, head_all_acked, all_acked in *. rewrite Hp, Hr, Ha, Hy, Hd, W1, W2, W3. exact F.
+Qed.
+
+Lemma holds_excl s : inv3 s -> r_holds s = true -> p_holds s = true -> False.
+Proof. intros [_ H] Hr Hp. rewrite Hr, Hp in H. discriminate. Qed.
+
+Lemma step_fi cfg s e s' x : inv3 s -> fi s x -> step cfg s e = Some (Ok s') -> fi s' (gstep s e s' x).
+Proof.
+  intros I3 F Hs.
+  destruct (step_closed _ _ _ _ Hs) as [Hsame|[Hc0 [Hc1 [a [He [Hp0 Hp1]]]]]].
+  2:{ (* the closing step *)
+    subst e. intros _. cbn [gstep]. rewrite Hp0, Hp1. cbn. auto. }
+  assert (Hc : closedForWriting (s_pbl s') = true -> closedForWriting (s_pbl s) = true) by congruence.
+  destruct e as [alloc| |index size|k blk seed|d| |t a]; cbn [step] in Hs.
+  - inversion Hs; subst. apply (fi_frame s x); auto. apply same_writes_refl.
+  - destruct (blocks (s_pbl s)) as [|b rest] eqn:Eb; [discriminate|].
+    destruct (pop_front (s_pbl s)) as [p'|] eqn:Ep; [|discriminate]. inversion Hs; subst.
+    cbn [gstep]. rewrite Eb. apply (fi_frame s x); auto. apply same_writes_with_g.
+  - destruct (_ || _); [|discriminate]. destruct (put_start _ _); [|discriminate]. inversion Hs; subst.
+    apply (fi_frame s x); auto. apply same_writes_refl.
+  - destruct (nth_error (s_uploads s) k) as [[[tok sz]|]|] eqn:En; try discriminate.
+    destruct (put_finalize tok blk sz seed (s_pbl s)) as [[p' fr]|] eqn:Ef; [|discriminate]. inversion Hs; subst.
+    intros C. cbn [s_pbl with_uploads with_pbl] in *.
+    assert (Cs : closedForWriting (s_pbl s) = true) by (apply Hc; exact C).
+    destruct (refused_not_lost_pbl _ _ _ _ _ _ _ Cs Ef) as [Hpp Hfr].
+    assert (Hx : gstep s (EFinalize k blk seed) (with_uploads (with_pbl s p') (clear_nth (s_uploads s) k)) x = x).
+    { cbn [gstep]. rewrite En. destruct tok as [|abs]; [reflexivity|]. rewrite Ef.
+      destruct Hfr as [->|[-> _]]; reflexivity. }
+    rewrite Hx. specialize (F Cs). exact F.
+  - inversion Hs; subst. apply (fi_frame s x); auto. apply same_writes_refl.
+  - inversion Hs; subst. apply (fi_frame s x); auto. apply same_writes_refl.
+  - destruct t.
+    + (* release loop *)
+      unfold rstep in Hs. destruct (s_r s) as [|ch|w] eqn:Er.
+      * inversion Hs; subst. intros C. specialize (F (Hc C)). unfold fi in *. cbn [gstep]. rewrite Er. cbn.
+        destruct F as [F1 F2]. split; [exact F1|].
+        destruct (s_p s) as [| | | | |[] []|[] []|[] [] ?|[] w0|]; auto. destruct F2 as [A [B _]]. auto.
+      * destruct (is_closed _ _); [|discriminate]. inversion Hs; subst. intros C. specialize (F (Hc C)).
+        unfold fi in *. cbn [gstep]. rewrite Er. cbn. destruct F as [F1 F2]. split; [exact F1|].
+        destruct (s_p s) as [| | | | |[] []|[] []|[] [] ?|[] w0|]; auto. destruct F2 as [A [B _]]. auto.
+      * destruct (wstep cfg TR w a s) as [[[s1 w']|]|] eqn:Ew; try discriminate.
+        destruct (wstep_store _ _ _ _ _ _ _ Ew) as [Hr1 [Hp1 Hcase]].
+        assert (Hsp : s_p s' = s_p s).
+        { destruct w'; inversion Hs; subst; cbn; exact Hp1. }
+        intros C. specialize (F (Hc C)). unfold fi in *. cbn [gstep]. rewrite Er, Hsp.
+        destruct F as [F1 F2]. rewrite gw_step_g. split; [exact F1|].
+        assert (Hrh : forall st, w = WWriting st -> p_holds s = false).
+        { intros st ->. destruct (p_holds s) eqn:Eh; [|reflexivity]. exfalso.
+          eapply holds_excl; eauto. unfold r_holds. rewrite Er. reflexivity. }
+        destruct w as [| |st| |dl]; cbn [gw_step].
+        -- (* WAcquire *) destruct Hcase as [_ [_ ->]]. inversion Hs; subst. cbn.
+           destruct (s_p s) as [| | | | |[] []|[] []|[] [] ?|[] w0|]; auto. destruct F2 as [A [B _]]. auto.
+        -- (* WGetState *) destruct Hcase as [_ [st ->]]. inversion Hs; subst. cbn.
+           destruct (s_p s) as [| | | | |[] []|[] []|[] [] ?|[] w0|]; auto.
+           destruct F2 as [A [B _]]. splits; auto. eexists. split; [reflexivity|]. unfold all_acked. cbn. exact A.
+        -- (* WWriting *) specialize (Hrh st eq_refl). unfold p_holds in Hrh. unfold wstep in Ew.
+           destruct (a_ok a) eqn:Ea; inversion Ew; subst s1 w'; inversion Hs; subst s'; cbn.
+           ++ destruct (s_p s) as [| | | | |[] []|[] []|[] [] ?|[] w0|]; auto.
+              ** destruct F2 as [A B]. destruct (gs_pend_r x); cbn; split; auto; destruct w0; auto; discriminate.
+              ** rewrite Er in F2. destruct F2 as [A [B [w0 [P Q]]]]. rewrite P. cbn. splits; auto.
+                 exists w0, (gs_writes x). split; [reflexivity|exact Q].
+           ++ destruct (s_p s) as [| | | | |[] []|[] []|[] [] ?|[] w0|]; auto. destruct F2 as [A [B _]]. auto.
+        -- (* WWritten *) destruct Hcase as [_ ->]. inversion Hs; subst. cbn.
+           destruct (s_p s) as [| | | | |[] []|[] []|[] [] ?|[] w0|]; auto. destruct F2 as [A [B _]]. auto.
+        -- (* WSleep *) destruct Hcase as [_ ->]. inversion Hs; subst. cbn.
+           destruct (s_p s) as [| | | | |[] []|[] []|[] [] ?|[] w0|]; auto. destruct F2 as [A [B _]]. auto.
+    + (* put loop *)
+      intros C. specialize (F (Hc C)). unfold fi in F. destruct F as [F1 F2].
+      unfold pstep in Hs. destruct (s_p s) as [|ch|ch|dl|keep|keep final|keep final|keep final dl|keep w|] eqn:Ep;
+        try (exfalso; exact F2); try discriminate.
+      * destruct keep, final; try (exfalso; exact F2).
+        unfold fi. destruct (a_ok a); inversion Hs; subst; cbn [gstep]; rewrite Ep; cbn; auto.
+      * destruct keep, final; try (exfalso; exact F2). cbn [negb andb] in Hs. inversion Hs; subst.
+        unfold fi. cbn [gstep]. rewrite Ep. cbn. auto.
+      * destruct keep, final; try (exfalso; exact F2).
+        destruct (_ <=? _)%N; [|discriminate]. inversion Hs; subst. unfold fi. cbn [gstep]. rewrite Ep. cbn. auto.
+      * destruct keep; [exfalso; exact F2|]. destruct F2 as [A B].
+        destruct (wstep cfg TP w a s) as [[[s1 w']|]|] eqn:Ew; try discriminate.
+        destruct (wstep_store _ _ _ _ _ _ _ Ew) as [Hr1 [Hp1 Hcase]].
+        unfold fi. cbn [gstep]. rewrite Ep, gw_step_g. split; [exact F1|].
+        destruct w as [| |st| |dl]; cbn [gw_step].
+        -- destruct Hcase as [_ [_ ->]]. inversion Hs; subst. cbn. auto.
+        -- destruct Hcase as [_ [st ->]]. inversion Hs; subst. cbn. split; [exact A|].
+           eexists. split; [reflexivity|]. unfold all_acked. cbn. exact A.
+        -- destruct B as [w0 [P Q]]. unfold wstep in Ew.
+           destruct (a_ok a) eqn:Ea; inversion Ew; subst s1 w'; inversion Hs; subst s'; cbn.
+           ++ rewrite P. cbn. split; [exact A|]. exists w0, (gs_writes x). split; [reflexivity|exact Q].
+           ++ auto.
+        -- destruct Hcase as [_ ->]. inversion Hs; subst. cbn. rewrite Hr1. splits; auto.
+           destruct (s_r s) as [| |w0] eqn:Er; auto. destruct w0; auto. exfalso.
+           eapply holds_excl; eauto; [unfold r_holds|unfold p_holds]; rewrite ?Er, ?Ep; reflexivity.
+        -- destruct Hcase as [_ ->]. inversion Hs; subst. cbn. auto.
+Qed.
+
+(** where the put loop is once the final sync has begun *)
+Definition pcinv (s : sys) : Prop :=
+  match s_p s with
+  | PSyncing k true | PSyncSleep k true _ | PSyncRet k true => k = false /\ closedForWriting (s_pbl s) = true
+  | PW false _ | PExit => closedForWriting (s_pbl s) = true
+  | _ => True
+  end.
+
+Lemma step_pcinv cfg s e s' : pcinv s -> step cfg s e = Some (Ok s') -> pcinv s'.
+Proof.
+  intros P Hs. pose proof (step_closed _ _ _ _ Hs) as Hcl.
+  assert (Hmono : closedForWriting (s_pbl s) = true -> closedForWriting (s_pbl s') = true).
+  { destruct Hcl as [E|[_ [E _]]]; congruence. }
+  assert (Hframe : s_p s' = s_p s -> pcinv s').
+  { intros E. unfold pcinv in *. rewrite E.
+    destruct (s_p s) as [| | | | |k []|k []|k [] ?|[] w|]; intuition. }
+  destruct e as [alloc| |index size|k blk seed|d| |t a]; cbn [step] in Hs.
+  - inversion Hs; subst. apply Hframe. reflexivity.
+  - destruct (blocks _); [discriminate|]. destruct (pop_front _); [|discriminate]. inversion Hs; subst.
+    apply Hframe. reflexivity.
+  - destruct (_ || _); [|discriminate]. destruct (put_start _ _); [|discriminate]. inversion Hs; subst.
+    apply Hframe. reflexivity.
+  - destruct (nth_error _ _) as [[[tok sz]|]|]; try discriminate.
+    destruct (put_finalize _ _ _ _ _) as [[p' fr]|]; [|discriminate]. inversion Hs; subst. apply Hframe. reflexivity.
+  - inversion Hs; subst. apply Hframe. reflexivity.
+  - inversion Hs; subst. apply Hframe. reflexivity.
+  - destruct t.
+    + unfold rstep in Hs. destruct (s_r s) as [|ch|w].
+      * inversion Hs; subst. apply Hframe. reflexivity.
+      * destruct (is_closed _ _); [|discriminate]. inversion Hs; subst. apply Hframe. reflexivity.
+      * destruct (wstep cfg TR w a s) as [[[s1 w']|]|] eqn:Ew; try discriminate.
+        destruct (wstep_store _ _ _ _ _ _ _ Ew) as [_ [Hp1 _]]. apply Hframe.
+        destruct w'; inversion Hs; subst; cbn; exact Hp1.
+    + unfold pstep in Hs. unfold pcinv in *.
+      destruct (s_p s) as [|ch|ch|dl|keep|keep final|keep final|keep final dl|keep w|] eqn:Ep.
+      * inversion Hs; subst. cbn. exact I.
+      * destruct (is_closed _ _); inversion Hs; subst; cbn; exact I.
+      * destruct (s_cancel s && _); [|destruct (is_closed _ _); [|discriminate]]; inversion Hs; subst; cbn; exact I.
+      * destruct (s_cancel s && _); [|destruct (_ && _)%bool; [|discriminate]]; inversion Hs; subst; cbn; exact I.
+      * inversion Hs; subst. cbn. exact I.
+      * destruct (a_ok a); inversion Hs; subst; cbn; destruct final; auto.
+      * destruct (nsc_shape (s_pbl s)) as [_ [_ [_ [_ [_ [_ [_ Hc]]]]]]].
+        destruct keep, final; cbn [negb andb] in Hs; inversion Hs; subst; cbn; auto.
+        all: try (destruct P as [P _]; discriminate).
+        all: try (destruct P as [_ P]; rewrite Hc; exact P).
+      * destruct (_ <=? _)%N; [|discriminate]. inversion Hs; subst. cbn. destruct final; auto.
+      * destruct (wstep cfg TP w a s) as [[[s1 w']|]|] eqn:Ew; try discriminate.
+        pose proof (wstep_closed _ _ _ _ _ _ _ Ew) as Hc.
+        destruct w'; inversion Hs; subst; cbn; destruct keep; auto; rewrite Hc; exact P.
+      * discriminate.
+Qed.
+
+Definition sinv2 (o : N) (s : sys) (x : gsys) : Prop := sinv o s x /\ inv3 s /\ fi s x /\ pcinv s.
+
+Lemma grun_sinv2 o cfg tr : forall s x s' x', sinv2 o s x -> grun cfg s x tr = Some (Ok (s', x')) -> sinv2 o s' x'.
+Proof.
+  induction tr as [|e tr IH]; intros s x s' x' S H; cbn in H.
+  - inversion H; subst. exact S.
+  - destruct (step cfg s e) as [[s1|]|] eqn:Es; try discriminate.
+    eapply IH; [|exact H]. destruct S as [S1 [S2 [S3 S4]]]. split; [eapply step_sinv; eauto|].
+    split; [eapply step_inv3; eauto|]. split; [eapply step_fi; eauto|eapply step_pcinv; eauto].
+Qed.
+
+Lemma init_sinv2 alloc oldest init t0 : sinv2 oldest (init_sys (fst (pbl_new alloc oldest init)) t0) g0.
+Proof.
+  split; [apply init_sinv|]. split; [apply init_inv3|]. split.
+  - intros C. exfalso. unfold pbl_new in C. destruct (restore_blocks _ _ _) as [[bl sd] ls]. cbn in C. discriminate.
+  - exact I.
+Qed.
+
+(** graceful: when ProcessBlockPut has returned false, the newest completed
+    state write — the state on the medium — covers every ack ever made *)
+Theorem graceful_all cfg alloc oldest init t0 s x : greachable cfg alloc oldest init t0 s x ->
+  s_p s = PExit ->
+  closedForWriting (s_pbl s) = true /\
+  exists w rest, gs_writes x = w :: rest /\ gw_cohort w = g_acks (gs_g x) /\
+                 forall a, In a (g_acks (gs_g x)) -> covers w a.
+Proof.
+  intros [tr H] Hp. destruct (grun_sinv2 _ _ _ _ _ _ _ (init_sinv2 alloc oldest init t0) H) as [[_ [_ W]] [_ [F P]]].
+  unfold pcinv in P. rewrite Hp in P. split; [exact P|]. specialize (F P). rewrite Hp in F.
+  destruct F as [_ [_ [[w [rest [Hw Ha]]] _]]]. exists w, rest. splits; auto.
+  intros a Hin. destruct W as [W _]. rewrite Hw in W. inversion W; subst. destruct H2 as [C _].
+  rewrite Forall_forall in C. apply C. unfold all_acked in Ha. rewrite Ha. exact Hin.
+Qed.
+
+(** refused, not lost, over all schedules: after the final NotifySyncStarting
+    no step creates an ack and every finalizer leaves the list unchanged *)
+Theorem refused_not_lost_all cfg alloc oldest init t0 s x : greachable cfg alloc oldest init t0 s x ->
+  closedForWriting (s_pbl s) = true ->
+  forall e s', step cfg s e = Some (Ok s') ->
+    closedForWriting (s_pbl s') = true /\ g_acks (gs_g (gstep s e s' x)) = g_acks (gs_g x).
+Proof.
+  intros R C e s' Hs. split.
+  - destruct (step_closed _ _ _ _ Hs) as [E|[E _]]; congruence.
+  - destruct e as [alloc'| |index size|k blk seed|d| |t a]; cbn [gstep]; try reflexivity.
+    + destruct (blocks _); reflexivity.
+    + destruct (nth_error (s_uploads s) k) as [[[[|abs] sz]|]|] eqn:En; try reflexivity.
+      destruct (put_finalize (PutAt abs) blk sz seed (s_pbl s)) as [[p' fr]|] eqn:Ef; [|reflexivity].
+      destruct (refused_not_lost_pbl _ _ _ _ _ _ _ C Ef) as [_ [->|[-> _]]]; reflexivity.
+    + destruct t.
+      * destruct (s_r s); try reflexivity. rewrite gw_step_g. reflexivity.
+      * destruct (s_p s) as [| | | | |? ?|k f|? ? ?|? w|]; try reflexivity.
+        -- destruct (negb k && negb f); reflexivity.
+        -- rewrite gw_step_g. reflexivity.
+Qed.
+
+(** ================= the layout of restored blocks ================= *)
+Lemma promote_new_spec pol : forall fuel i nb i' nb', i <= fuel -> promote_new pol fuel i nb = (i', nb') ->
+  i' + nb' = i + nb /\ (i' = 0 \/ should_grow_new pol 0 nb' = false).
+Proof.
+  induction fuel as [|f IH]; intros i nb i' nb' Hle H; cbn in H.
+  - inversion H; subst. split; [reflexivity|left; lia].
+  - destruct i as [|i]; [inversion H; subst; auto|].
+    destruct (should_grow_new pol 0 nb) eqn:E.
+    + apply IH in H; [|lia]. destruct H as [H1 H2]. split; [lia|exact H2].
+    + inversion H; subst. auto.
+Qed.
+
+Lemma promote_current_spec pol : forall fuel i cb i' cb', i <= fuel -> promote_current pol fuel i cb = (i', cb') ->
+  i' + cb' = i + cb /\ (i' = 0 \/ should_grow_current pol cb' = false).
+Proof.
+  induction fuel as [|f IH]; intros i cb i' cb' Hle H; cbn in H.
+  - inversion H; subst. split; [reflexivity|left; lia].
+  - destruct i as [|i]; [inversion H; subst; auto|].
+    destruct (should_grow_current pol cb) eqn:E.
+    + apply IH in H; [|lia]. destruct H as [H1 H2]. split; [lia|exact H2].
+    + inversion H; subst. auto.
+Qed.
+
+Lemma ocn_new_counts pol desiredOld n :
+  l_old (ocn_new pol desiredOld n) + l_current (ocn_new pol desiredOld n) + l_new (ocn_new pol desiredOld n) = n.
+Proof.
+  unfold ocn_new. destruct (promote_new pol n n 0) as [i1 nb] eqn:E1.
+  destruct (promote_current pol i1 i1 0) as [i2 cb] eqn:E2. cbn.
+  destruct (promote_new_spec _ _ _ _ _ _ (le_n _) E1) as [H1 _].
+  destruct (promote_current_spec _ _ _ _ _ _ (le_n _) E2) as [H2 _]. lia.
+Qed.
+
+Theorem restored_layout_cas old cur new n : n <= old + cur + new ->
+  l_to_be_released (ocn_new (cas_policy cur new) old n) = 0.
+Proof.
+  intros Hn. unfold ocn_new, cas_policy. destruct (promote_new _ n n 0) as [i1 nb] eqn:E1.
+  destruct (promote_current _ i1 i1 0) as [i2 cb] eqn:E2. cbn [l_to_be_released].
+  destruct (promote_new_spec _ _ _ _ _ _ (le_n _) E1) as [H1 H1'].
+  destruct (promote_current_spec _ _ _ _ _ _ (le_n _) E2) as [H2 _].
+  destruct (Nat.ltb_spec old i2); [|reflexivity]. exfalso.
+  destruct H1' as [->|Hg]; [lia|]. unfold should_grow_new in Hg. apply Nat.ltb_ge in Hg. lia.
+Qed.
+
+Theorem restored_layout_ac old cur n : n <= old + cur + 1 ->
+  l_to_be_released (ocn_new (ac_policy cur) old n) = 0.
+Proof.
+  intros Hn. unfold ocn_new, ac_policy. destruct (promote_new _ n n 0) as [i1 nb] eqn:E1.
+  destruct (promote_current _ i1 i1 0) as [i2 cb] eqn:E2. cbn [l_to_be_released].
+  destruct (promote_new_spec _ _ _ _ _ _ (le_n _) E1) as [H1 H1'].
+  destruct (promote_current_spec _ _ _ _ _ _ (le_n _) E2) as [H2 H2'].
+  destruct (Nat.ltb_spec old i2); [|reflexivity]. exfalso.
+  destruct H2' as [->|Hg2]; [lia|]. unfold should_grow_current in Hg2. apply Nat.ltb_ge in Hg2.
+  destruct H1' as [->|Hg]; [lia|]. unfold should_grow_new in Hg. apply Nat.ltb_ge in Hg. lia.
+Qed.
+
+Lemma promote_new_le d : forall fuel i z i' nb', z <= d -> promote_new (Immutable d) fuel i z = (i', nb') -> nb' <= d.
+Proof.
+  induction fuel as [|f IH]; intros i z i' nb' Hz H; cbn [promote_new] in H.
+  - inversion H; subst. exact Hz.
+  - destruct i; [inversion H; subst; exact Hz|]. unfold should_grow_new in H.
+    destruct (Nat.ltb_spec (0 + z) d).
+    + eapply IH; [|exact H]. lia.
+    + inversion H; subst. exact Hz.
+Qed.
+
+(** and the hypothesis is sharp: one block more is scheduled for release *)
+Theorem restored_layout_cas_overflow old cur new n : old + cur + new < n ->
+  l_to_be_released (ocn_new (cas_policy cur new) old n) = n - (old + cur + new).
+Proof.
+  intros Hn. unfold ocn_new, cas_policy. destruct (promote_new _ n n 0) as [i1 nb] eqn:E1.
+  destruct (promote_current _ i1 i1 0) as [i2 cb] eqn:E2. cbn [l_to_be_released].
+  destruct (promote_new_spec _ _ _ _ _ _ (le_n _) E1) as [H1 H1'].
+  assert (Hnb : nb <= cur + new) by (eapply promote_new_le; [|exact E1]; lia).
+  assert (Hcb : i2 = i1 /\ cb = 0).
+  { destruct i1; cbn in E2; inversion E2; auto. }
+  destruct Hcb as [-> ->].
+  destruct H1' as [->|Hg]; [lia|]. unfold should_grow_new in Hg. apply Nat.ltb_ge in Hg.
+  destruct (Nat.ltb_spec old i1); lia.
+Qed.
+
+(** ================= when does a record resolve ================= *)
+(** BlockReferenceToBlockIndex succeeds exactly when the referenced epoch is
+    one of the list's epochs (its seed is then the one returned) and the
+    referenced block — BlocksFromLast before the epoch's last block — has not
+    been popped; the block is then listed. *)
+Lemma ref_to_index_iff p eid bfl i sd :
+  length (epochLast p) = length (epochSeeds p) ->
+  epochLast p = elayout (totalReleased p) (blocks p) ->
+  (ref_to_index eid bfl p = Ok (Some (i, sd)) <->
+   exists e la, N.of_nat e = u32 (eid + 2 ^ 32 - oldestEpochID p)
+     /\ nth_error (epochSeeds p) e = Some sd /\ nth_error (epochLast p) e = Some la
+     /\ (Z.of_nat (totalReleased p) + Z.of_N bfl <= Z.of_nat la)%Z
+     /\ i = Z.to_nat (Z.of_nat la - Z.of_nat (totalReleased p) - Z.of_N bfl)
+     /\ i < length (blocks p)).
+Proof.
+  intros Hlen HEL. unfold ref_to_index.
+  set (en := u32 (eid + 2 ^ 32 - oldestEpochID p)).
+  destruct (N.leb_spec (N.of_nat (length (epochSeeds p))) en) as [Hle|Hlt].
+  - split; [discriminate|]. intros [e [la [He [Hs _]]]]. exfalso.
+    assert (e < length (epochSeeds p)) by (apply nth_error_Some; congruence). lia.
+  - assert (Hn : N.to_nat en < length (epochSeeds p)) by lia.
+    destruct (nth_error (epochLast p) (N.to_nat en)) as [la|] eqn:El;
+      [|apply nth_error_None in El; lia].
+    destruct (nth_error (epochSeeds p) (N.to_nat en)) as [sd'|] eqn:Es;
+      [|apply nth_error_None in Es; lia].
+    assert (Hrange : totalReleased p <= la < totalReleased p + length (blocks p)).
+    { rewrite HEL in El. eapply elayout_range; eauto. }
+    destruct (Z.ltb_spec (Z.of_nat la - Z.of_nat (totalReleased p)) (Z.of_N bfl)) as [Hb|Hb].
+    + split; [discriminate|]. intros [e [la' [He [_ [Hl [Hz _]]]]]]. exfalso.
+      assert (e = N.to_nat en) by lia. subst e. rewrite El in Hl. inversion Hl; subst. lia.
+    + split.
+      * intros H; inversion H; subst. exists (N.to_nat en), la. splits; auto; lia.
+      * intros [e [la' [He [Hs [Hl [Hz [Hi _]]]]]]].
+        assert (e = N.to_nat en) by lia. subst e. rewrite El in Hl. rewrite Es in Hs.
+        inversion Hl; inversion Hs; subst. reflexivity.
+Qed.
+
+Lemma restart_wf st : let p := restart_of st in
+  length (epochLast p) = length (epochSeeds p) /\ epochLast p = elayout (totalReleased p) (blocks p).
+Proof.
+  cbn zeta. unfold restart_of, pbl_new. destruct (restore_blocks _ (snd st) 0) as [[bl sd] ls] eqn:E. cbn.
+  split; [apply (restore_lengths _ _ _ _ _ _ E)|eapply restore_el; eauto].
+Qed.
